@@ -30,7 +30,19 @@ Correspondence (model = `lean/PercevalModel/Model/C08.lean`, run through `Driver
   modes, logical_perf): results, physical_perf and logical_perf compared directly, nothing post-processed by the
   harness; the same through `Processor.samples()` (support + 6-sigma TEST);
 * `simulate_detectors_sample` / `Processor.samples()` with detectors: every draw lies in the support of the
-  mode-wise kernel product (and a 6-sigma frequency TEST against the law).
+  mode-wise kernel product (and a 6-sigma frequency TEST against the law);
+* `simulate_detectors(dist, dets, min_photons, prob_threshold)` at NON-ZERO thresholds over the decades 1e-12..0.5 and
+  with `global_params['min_p']` changed (model `Model/C08Thr.lean`, op `sim` with `thr`): the real result against the model
+  at the same (min_p, T) exactly, and against the PROVED intervals around the exact law (phys_perf, every entry of the
+  normalised result; slacks computed in Python); exact ties (dyadic numbers) decide `<` vs `<=`; an exact-arithmetic
+  re-run of the code's algorithm tells when a float comparison is too close to call (such cases are skipped, counted);
+* `BSLayeredPPNR.detect` with `min_p` changed (the backend builds its dictionary with `add`: leaf states dropped);
+* `simulate_detectors_sample` with `min_p` changed: kernel-product law while no per-mode result is empty, and the
+  characterised restart after an empty one (`tensor_product` returns its right factor when the left one is empty);
+* mixed inputs: `Simulator.probs_svd(SVDistribution of several Fock members, detectors)` with heralds, filter,
+  post-selection, precision 0 and > 0 (p_threshold handed to simulate_detectors), members below the filter, vacuum
+  members, and `Processor.probs()` with a lossy source (model `Model/C08Mix.lean`, op `probsmix`): results, physical_perf,
+  logical_perf against the model, and against the mixture of the members' conditioned laws (exact oracle).
 
 Direct oracle on the implementation (independent of Lean, exact `Fraction`s): the closed form
 C(w,k)·S(n,k)·k!/w^n with the fold into the maximum, min(n,1), n, the multinomial law of the
@@ -2606,7 +2618,11 @@ def run(chk: core.Check):
                 "(0/1) on modes read by none/PNR/threshold/interleaved/tree detectors, filter, post-selection; one Simulator "
                 "through probs_svd with sequences of detector lists (mask on/off) and heralds up to 2; "
                 "simulate_detectors_sample and Processor.samples() draws against the support of "
-                "the kernel product. distinct = distinct (detector, photons) / (kinds, states, filter) "
+                "the kernel product; simulate_detectors at prob_threshold in {0, 1e-12..0.5} and min_p in {1e-16, 1e-9..0.9} "
+                "(general branch m<=4, uniform lists, one mode, exact ties), BSLayeredPPNR.detect and simulate_detectors_sample at "
+                "changed min_p; probs_svd on mixtures of 2-6 Fock members (photons lost, vacuum, unrelated states) with heralds, "
+                "filter, post-selection, precision in {0, 1e-3..0.5}, and Processor.probs() with brightness 0.3..0.9. "
+                "distinct = distinct (detector, photons) / (kinds, states, filter) "
                 "signatures; non-trivial = a multi-wire or tree detector hit by >=2 photons, resp. a non-PNR list on a "
                 "distribution with a >=2-photon state")
     chk.assumptions = [
@@ -2617,8 +2633,18 @@ def run(chk: core.Check):
         "exact comparison of compute_unitary() needs rational beam-splitter amplitudes: done for the Pythagorean "
         "reflectivities (a/h)^2; for the other reflectivities only the first-column moduli (path weights) are compared",
         "global min_p = 1e-16: ProbabilityDistribution.add drops contributions <= min_p; the model does the same; "
-        "mass theorems are stated for min_p <= 0 (difference <= 1e-16 per entry, below the 1e-9 tolerance)",
-        "simulate_detectors is exercised at prob_threshold = 0 (its default); Processor.probs() at precision = 0",
+        "exact laws are stated for min_p <= 0; for min_p >= 0 the deviation of phys_perf, of the retained mass and of the "
+        "(un-)normalised result is bounded by theorems (min_p per add call), and min_p is also exercised at changed values",
+        "prob_threshold > 0 / changed min_p: model and implementation are compared exactly unless an order comparison of the "
+        "code's algorithm (re-run in exact arithmetic) is closer than 1e-9 relative (1e-7 for the mixed-input path), where the "
+        "float result is not determined; such cases are skipped and counted (none met so far); exact ties are exercised "
+        "with dyadic numbers only; the proved intervals are evaluated with slacks computed in Python (an upper estimate of "
+        "the model's)",
+        "mixed inputs: members are un-annotated Fock states; their theoretical distributions are taken from the SLOS backend "
+        "(floats read as exact rationals); the oracle (mixture of per-member conditioned laws) is evaluated at precision 0, "
+        "cases with precision > 0 are compared with the model only",
+        "simulate_detectors_sample at a changed min_p with an EMPTY per-mode dictionary follows the characterised restart rule "
+        "(sample_restarts_after_empty_kernel); this is a quirk at min_p >= 1/(number of readings), not reported as a defect",
         "the all-PNR branch of simulate_detectors returns its input without applying the photon filter "
         "(callers filter upstream); modelled as coded",
         "simulate_detectors_sample / Processor.samples(): only membership of every draw in the support of the proved law "
